@@ -41,7 +41,7 @@ BEGINStatement::~BEGINStatement()
   _catches.clear();
 }
 
-void BEGINStatement::docatch(const RuntimeError& rt, Context& ctx) const
+void BEGINStatement::docatch(const RuntimeError& rt, Context& ctx, const RuntimeError& outer) const
 {
   if (!_catches.empty())
   {
@@ -57,8 +57,6 @@ void BEGINStatement::docatch(const RuntimeError& rt, Context& ctx) const
               )))
       {
         /* catch the user defined exception */
-        /* the error of an enclosing exception clause, else no error */
-        const RuntimeError outer = ctx.error();
         try
         {
           /* save catched error in the context */
@@ -87,6 +85,9 @@ void BEGINStatement::docatch(const RuntimeError& rt, Context& ctx) const
 
 const Statement * BEGINStatement::doit(Context& ctx) const
 {
+  /* the error of an enclosing exception clause, else no error: it is taken on
+   * entry because an inner clause which fails leaves its own error behind */
+  const RuntimeError outer = ctx.error();
   ctx.execBegin(this);
   try
   {
@@ -95,7 +96,7 @@ const Statement * BEGINStatement::doit(Context& ctx) const
   }
   catch (RuntimeError& rt)
   {
-    docatch(rt, ctx);
+    docatch(rt, ctx, outer);
   }
   ctx.execEnd();
   return _next;
